@@ -21,6 +21,7 @@ import (
 const (
 	bNow   = 'n' // reply at once
 	bNever = 'x' // never reply
+	bEdge  = 'e' // reply released a swept offset after the call started, around the moment the call times out (either outcome is fine for that call)
 	bLateA = 'a' // reply released right after the call timed out (before the next request is written)
 	bLateB = 'b' // reply emitted by the server just before it answers the next request
 	bLateC = 'c' // reply emitted just after the server answered the next request
@@ -32,10 +33,15 @@ type scn struct {
 	version  string
 	maxChunk int
 	b        sched.Bounds
+	edge     int // behaviour e: release offset in half read delays
 }
 
 func (s scn) name() string {
-	return fmt.Sprintf("hist=%s/echo=%v/v=%s/chunk=%d/pre=%d/env=%d", s.hist, s.echo, s.version, s.maxChunk, s.b.Pre, s.b.Env)
+	n := fmt.Sprintf("hist=%s/echo=%v/v=%s/chunk=%d/pre=%d/env=%d", s.hist, s.echo, s.version, s.maxChunk, s.b.Pre, s.b.Env)
+	if s.edge > 0 {
+		n += fmt.Sprintf("/edge=%d", s.edge)
+	}
+	return n
 }
 
 var midRe = regexp.MustCompile(`message-id="(\d+)"`)
@@ -59,6 +65,7 @@ func scenario(s scn) sched.Scenario {
 		}
 		cfg := cm.Cfg(classes...)
 		cfg.NoPreAlt = s.b.Pre == 0
+		cfg.HoldPoints = s.edge > 0
 		cfg.NoIdleAlt = s.b.Env == 0
 		timeout := 6*cm.Ms + cm.Ms/2
 		cfg.Horizon = time.Duration(len(s.hist)+2) * 40 * cm.Ms
@@ -108,6 +115,14 @@ func scenario(s scn) sched.Scenario {
 				e.OpenWindow()
 				for i := 0; i < len(s.hist); i++ {
 					t0 := e.Now()
+					if s.hist[i] == bEdge {
+						i := i
+						// + Ms/10: never at the same virtual instant as a library timer
+						time.AfterFunc(time.Duration(s.edge)*cm.Ms/2+cm.Ms/10, func() {
+							srv.Release(i)
+							e.Poke()
+						})
+					}
 					r, err := d.GetConfig("running")
 					cr := callRes{err: err, dt: e.Now() - t0}
 					if r != nil {
@@ -183,7 +198,7 @@ func scenario(s scn) sched.Scenario {
 							e.Violate("c08:reply-returned-twice", "reply %s returned to calls %d and %d", m[1], k, i)
 						}
 						seen[m[1]] = i
-						if beh != bNow {
+						if beh != bNow && beh != bEdge {
 							e.Violate("c08:late-reply-accepted", "call %d (behaviour %c) should have timed out, got %q", i, beh, c.result)
 						}
 					} else {
@@ -240,14 +255,27 @@ func scenarios(tier string) []sched.Scenario {
 					if tier == "thorough" && len(h) <= 3 && mc != 1 {
 						env = 1
 					}
-					out = append(out, scenario(scn{h, echo, v, mc, sched.Bounds{Env: env}}))
+					out = append(out, scenario(scn{h, echo, v, mc, sched.Bounds{Env: env}, 0}))
 				}
 				if len(h) <= 2 {
 					pre := 1
 					if tier == "thorough" {
 						pre = 2
 					}
-					out = append(out, scenario(scn{h, echo, v, 0, sched.Bounds{Pre: pre, Env: 0}}))
+					out = append(out, scenario(scn{h, echo, v, 0, sched.Bounds{Pre: pre, Env: 0}, 0}))
+				}
+			}
+		}
+	}
+	// replies that land around the expiry of their call's timer, with the reply poller held at its hand-over
+	for _, h := range []string{"e", "en", "ee"} {
+		for _, echo := range []bool{false, true} {
+			for _, v := range []string{"1.0", "1.1"} {
+				for k := 5; k <= 13; k++ {
+					if tier != "thorough" && (len(h) > 1 && (echo || v == "1.0")) {
+						continue
+					}
+					out = append(out, scenario(scn{h, echo, v, 0, sched.Bounds{Pre: 2, Env: 0}, k}))
 				}
 			}
 		}
